@@ -116,11 +116,24 @@ func (ex *Exec) findLocalAt(fr *Frame, li *loopInfo, at token.Pos, name string) 
 	}
 	if len(cands) == 0 {
 		// the function has no variable of that name (any more): the recorded position may tell which one is meant
-		if a := ex.prog.renamedLocal(fr.fn, name); a != nil {
-			ex.vc.Assumptions[fmt.Sprintf("local %s of %s is the variable the contract calls %s (matched by recorded position and type)", a.Comment, fr.fn.Name(), name)] = true
-			return a
+		as := ex.prog.renamedLocals(fr.fn, name)
+		if len(as) == 0 {
+			return nil
 		}
-		return nil
+		a := as[0]
+		if len(as) > 1 && pos.IsValid() {
+			// several renamed variables shared the old name: take the one whose new name is in scope here
+			if sc := fnPkg(fr.fn).Scope().Innermost(pos); sc != nil {
+				for _, c := range as {
+					if _, obj := sc.LookupParent(c.Comment, pos); obj != nil && obj.Pos() == c.Pos() {
+						a = c
+						break
+					}
+				}
+			}
+		}
+		ex.vc.Assumptions[fmt.Sprintf("local %s of %s is the variable the contract calls %s (matched by recorded position and type)", a.Comment, fr.fn.Name(), name)] = true
+		return a
 	}
 	if len(cands) == 1 {
 		return cands[0]
